@@ -205,7 +205,7 @@ func (s *Translator) Enter(expression cypher.SyntaxNode) {
 	case *cypher.Parameter:
 		var (
 			cypherIdentifier = pgsql.Identifier(typedExpression.Symbol)
-			binding, bound   = s.scope.AliasedLookup(cypherIdentifier)
+			binding, bound   = s.scope.ParameterLookup(cypherIdentifier)
 		)
 
 		if !bound {
@@ -214,7 +214,7 @@ func (s *Translator) Enter(expression cypher.SyntaxNode) {
 			} else {
 				// Alias the old parameter identifier to the synthetic one
 				if cypherIdentifier != "" {
-					s.scope.Alias(cypherIdentifier, parameterBinding)
+					s.scope.AliasParameter(cypherIdentifier, parameterBinding)
 				}
 
 				parameterValue := s.resolveParameterValue(typedExpression)
